@@ -566,7 +566,21 @@ class CallMixin:
       return [Res(st, pos[0])]
     return self.bi_list(pos, kw, st, node, clsname='tuple')
 
+  INTERNALS = ('__fn_or_cls__', '__arguments__', '__argument_history__', '__argument_tags__',
+               '__signature_info__')
+
   def bi_dict(self, pos, kw, st, node):
+    if len(pos) == 1 and not kw and isinstance(pos[0], InstanceDict):
+      # dict(obj.__dict__): a fresh dict with the five internals of the Buildable
+      o = ref(pos[0].obj)
+      has = z3.K(Val, z3.BoolVal(False))
+      val = fresh('idict_val', ValMap)
+      facts = []
+      for f in self.INTERNALS:
+        has = z3.Store(has, strlit(f), True)
+        facts.append(val[strlit(f)] == st.heap.fld(o, f))
+      st2, d = self.new_dict(st.assume(*facts), 'dict', has=has, val=val)
+      return [Res(st2, VRef(d))]
     if not pos and not kw:
       st2, r = self.new_dict(st)
       return [Res(st2, VRef(r))]
@@ -891,6 +905,24 @@ class CallMixin:
   def call_method(self, recv, name, pos, kw, st, node):
     if isinstance(recv, ParamMap):
       return self.parammap_method(recv, name, pos, st, node)
+    if isinstance(recv, InstanceDict):
+      if name == 'update' and len(pos) == 1 and z3.is_expr(pos[0]):
+        # obj.__dict__.update(state): every internal named by the state dict is (re)bound
+        src = pos[0]
+        h = st.heap
+        if self.feasible_full(st, z3.Not(z3.And(is_VRef(src), cls_in(h.cls(ref(src)), 'dict')))):
+          self.unsupp('__dict__.update with a non-dict', node)
+        k = z3.Const('idu_k', Val)
+        others = z3.And(*[k != strlit(f) for f in self.INTERNALS])
+        if self.feasible_full(st, z3.Exists([k], z3.And(h.has(ref(src), k), others))):
+          self.unsupp('__dict__.update with keys other than the Buildable internals', node)
+        st2 = st
+        for f in self.INTERNALS:
+          cur = st2.heap.fld(ref(recv.obj), f)
+          newv = z3.If(h.has(ref(src), strlit(f)), h.dget(ref(src), strlit(f)), cur)
+          st2 = self.raw_store_attr(recv.obj, f, newv, st2)
+        return [Res(st2, VNone)]
+      self.unsupp(f'__dict__.{name}', node)
     if isinstance(recv, SuperObj):
       if name == '__setattr__':
         lit = self.str_literal_of(z3.simplify(pos[0]))
